@@ -220,6 +220,29 @@ PROPS['C17'] = {
                     'is not proved'],
 }
 
+PROPS['C14'] = {
+    'sidecars': ['contracts/C14_prekeys.py'],
+    'plugins': ['sqlmodel'],
+    'level': 'other',
+    'explanation': 'Per-operation contracts, all discharged: LitePreKeyStore (shared with C13: storePreKey never reuses an id and stores with '
+                   'the flag unset; setAsSent flags exactly the given ids in one transaction; loadUnsentPendingPreKeys returns exactly the '
+                   'rows with flag NULL/0; loadMaxPreKeyId), AxolotlManager.set_prekeys_as_sent / load_unsent_prekeys, AxolotlControlLayer: '
+                   'flush_keys sends exactly one upload whose SUCCESS continuation (executed symbolically) marks exactly the uploaded keys and '
+                   'whose error continuation is onSentKeysError, which marks nothing; on_keys_flushed; onAuthed (a passive login with '
+                   'unconfirmed keys re-offers exactly those keys); on_connected (unconfirmed keys are queued again, login made passive); '
+                   'on_disconnected (the requested reconnect).  Frame by a scan of every AST of the repository: sent_to_server is written only '
+                   'by setAsSent <- set_prekeys_as_sent <- on_keys_flushed <- the result continuation.  Hence flag=1 => confirmed (invariant).  '
+                   'Bounded: adjustId over all 2^24 ids (thorough), upload stanza content with real python-axolotl keys incl. signature '
+                   'verification, a history simulation on the real store.  NOT decided: key consumption after a first message (inside '
+                   'python-axolotl), level_prekeys generation loop, connection loss at thread level: level other.',
+    'native_checks': [{'name': 'c14_prekeys', 'role': 'stand-in', 'cmd': ['bounded/prekeys_check.py'],
+                       'bound': 'frame scan (complete over the repository); adjustId: quick 3014 ids incl. boundaries, thorough all 2^24; '
+                                '5/40 uploads with real keys; 3/30 histories of 3-7 restarts with batch size 6'}],
+    'assumptions': ['sqlite3 transactional model (C13)', 'adjustId / adjustArray are assumed pure in the contract of flush_keys and validated natively',
+                    'KeyHelper.generatePreKeys / generateSignedPreKey (python-axolotl) are outside the proofs',
+                    'SetKeysIqProtocolEntity construction is an opaque event in flush_keys; its content is checked natively'],
+}
+
 NOT_APPLICABLE = {
     'C11': 'quantifies over thread interleavings (2-4 sender threads through lock/queue operations); no verifier available here '
            'has a thread or permission model and sequential contracts cannot express "for every schedule" (DESIGN.md section 8)',
